@@ -21,7 +21,7 @@ import random
 
 from .core import AnalysisError, Checker
 from .gadgets import GadgetBench
-from .interp import InterpRaise
+from .interp import Host, InterpRaise
 from .tables import Denotations
 from . import semantics
 
@@ -191,7 +191,8 @@ def fold_squarers(ck: Checker, rule: str, bench: NumBench | None = None):
         cases += [(24, 0, False), (33, 0, False), (48, 0, False)]
     total = 0
     for fname in ('add_square', 'add_square_pow2_m1'):
-        total += _instances(ck, bench, rule, SQ, fname, f'{fname} instantiated', f'{fname}: the returned bits decode to a^2', cases, spec, unary=True)
+        # (add_square splits its operand from 48 bits on: that width is instantiated in the quick tier as well)
+        total += _instances(ck, bench, rule, SQ, fname, f'{fname} instantiated', f'{fname}: the returned bits decode to a^2', cases + ([(48, 0, False)] if fname == 'add_square' and ck.tier == 'quick' else []), spec, unary=True)
     ck.notes['squarer_evaluations'] = total
     ck.assume('squarers are instantiated for the listed widths only; widths 12 and above are decided on a fixed sample of operand values')
     return bench
@@ -311,6 +312,344 @@ def fold_bit_counters(ck: Checker, rule: str, bench: NumBench | None = None):
 SUB = ARITH + '.subtraction'
 DIV = ARITH + '.div_mod'
 SQRT = ARITH + '.sqrt'
+
+
+
+class _CircuitNS(Host):
+    """Stand-in for the name `Circuit` inside the generators' module: the two constructors the generate_* wrappers use."""
+
+    def __init__(self, input_type):
+        self._input_type = input_type
+
+    def __call__(self):
+        from .rewrites import FakeCircuit
+        return FakeCircuit(self._input_type)
+
+    def bare_circuit_with_labels(self, labels, *, set_as_outputs=False):
+        c = self()
+        c.add_inputs(list(labels))
+        if set_as_outputs:
+            c.set_outputs(list(labels))
+        c.log.clear()
+        return c
+
+    def bare_circuit(self, input_size, *, prefix='', set_as_outputs=False):
+        return self.bare_circuit_with_labels([f'{prefix}{i}' for i in range(input_size)], set_as_outputs=set_as_outputs)
+
+
+AIG_TYPES = {'INPUT', 'NOT', 'IFF', 'AND', 'OR', 'NAND', 'NOR', 'GT', 'LT', 'GEQ', 'LEQ', 'LNOT', 'RNOT', 'LIFF', 'RIFF', 'ALWAYS_TRUE', 'ALWAYS_FALSE'}
+XAIG_TYPES = AIG_TYPES | {'XOR', 'NXOR'}
+
+
+def fold_basis(ck: Checker, rule: str, bench: NumBench | None = None):
+    """Every function of the summation module that takes `basis`, instantiated with the basis spelled as a string (upper and
+    lower case) and as the enum member, for a range of sizes: only gates of the requested basis are created (and the result is
+    right -- the bit count / the weighted sum)."""
+    bench = bench or NumBench(ck.repo)
+    it = bench.B.interp
+    m = ck.repo.mod(SUM)
+    ns = _CircuitNS(bench.T['INPUT'])
+    it.overrides['cirbo.core.circuit.circuit.Circuit'] = ns
+    it.overrides['cirbo.core.circuit.Circuit'] = ns
+    it._globals_cache.clear()
+    try:
+        GB = it.global_value(m, 'GenerationBasis')
+        members = dict(GB.members)
+    except (AnalysisError, AttributeError):
+        members = {}
+    spellings = [('AIG', 'AIG'), ('aig', 'AIG'), ('XAIG', 'XAIG'), ('xaig', 'XAIG')] + [(members[k], k) for k in ('AIG', 'XAIG') if k in members]
+    weight_vectors = [[0, 0], [0, 0, 0], [0, 1, 1], [0, 0, 0, 0], [1, 0, 1, 0, 0], [2, 0, 0, 1, 1, 0], [0, 0, 0, 0, 0, 0, 0]]
+    import ast as _ast
+    n_fn = 0
+    for q, fn in m.functions.items():
+        if '.' in q or q.startswith('_'):
+            continue
+        params = [a.arg for a in fn.args.args + fn.args.kwonlyargs]
+        if 'basis' not in params:
+            continue
+        n_fn += 1
+        first = params[0]
+        takes_circuit = first == 'circuit'
+        arg = params[1] if takes_circuit else first
+        weighted = 'pow' in arg or 'weight' in arg
+        if not weighted and not (arg == 'n' or 'label' in arg):
+            ck.notes.setdefault('structural_rules_not_applicable', []).append(f'basis sweep: {q}({", ".join(params)}) has a parameter list the sweep does not know')
+            continue
+        probs, n_inst = [], 0
+        for spelled, name in spellings:
+            allowed = AIG_TYPES if name == 'AIG' else XAIG_TYPES
+            for case in (weight_vectors if weighted else [1, 2, 3, 4, 5, 6, 7]):
+                n_inst += 1
+                n = len(case) if weighted else case
+                tag = f'{q}({case}, basis={spelled if isinstance(spelled, str) else "GenerationBasis." + name})'
+                try:
+                    if takes_circuit:
+                        c, names = bench.host(n)
+                        a = [(w, l) for w, l in zip(case, names)] if weighted else list(names)
+                        res = bench.run(SUM, q, c, a, basis=spelled)
+                    else:
+                        it.steps = 0
+                        from .interp import RepoFunc
+                        c = RepoFunc(it, m, fn)(list(case) if weighted else n, basis=spelled)
+                        names = list(c._inputs)
+                        res = [(None, l) for l in c._outputs] if weighted else list(c._outputs)
+                except InterpRaise as e:
+                    probs.append(f'{tag} raises {e.exc_name}')
+                    continue
+                used = {g.gate_type.var for l, g in c._gates.items() if l not in names and l != 'own'}
+                if not used <= allowed:
+                    probs.append(f'{tag} creates {sorted(used - allowed)} gates, outside the requested basis')
+                    continue
+                flat = [x[1] if isinstance(x, tuple) else x for x in (res if isinstance(res, list) else [])]
+                flat = [y for x in flat for y in (x if isinstance(x, list) else [x])]
+                if any(l not in c._gates for l in flat):
+                    probs.append(f'{tag}: the result names {[l for l in flat if l not in c._gates][0]!r}, which is no gate of the circuit')
+                    continue
+                # the result is still right in that basis (one operand value per instance is enough here: C07.NUM sweeps the values)
+                vals = [bool((0x5B >> i) & 1) for i in range(n)]
+                v = eval_all(c, dict(zip(names, vals)))
+                if weighted and takes_circuit:
+                    want = sum(int(x) << w for x, w in zip(vals, case))
+                    got = sum(int(v[l]) << lv for lv, l in res)
+                    if got != want:
+                        probs.append(f'{tag}: weighted sum {want} comes out as {got}')
+                elif not weighted and isinstance(res, list) and res and not isinstance(res[0], list):
+                    got = sum(int(v[l]) << i for i, l in enumerate(res))
+                    if got != sum(vals):
+                        probs.append(f'{tag}: {sum(vals)} True operands are counted as {got}')
+            if len(probs) > 3:
+                break
+        ck.check(not probs, rule, m, fn, f'{q}: with the basis given as \'AIG\', \'aig\', GenerationBasis.AIG (and the same for XAIG) only gates of that basis are created ({n_inst} instances)', '; '.join(probs[:3]),
+                 construct=f'{q} basis sweep')
+    ck.need(n_fn >= 4, f'only {n_fn} public functions of the summation module take a basis (7 on the pinned tree)')
+    it.overrides.pop('cirbo.core.circuit.circuit.Circuit', None)
+    it.overrides.pop('cirbo.core.circuit.Circuit', None)
+    it._globals_cache.clear()
+
+
+def fold_generate(ck: Checker, rule: str, bench: NumBench | None = None):
+    """generate_mul / generate_square for every member of their mode enumerations (found by evaluating the Enum), both
+    endiannesses, widths 1 and 3: a circuit whose inputs are the operand bits and whose outputs decode to a * b / a^2 for every
+    operand value -- every mode has a generator, the entry point dispatches on the mode, forwards the endianness and outputs
+    exactly the returned bits."""
+    from .interp import RepoFunc, RepoEnum
+    bench = bench or NumBench(ck.repo)
+    it = bench.B.interp
+    ns = _CircuitNS(bench.T['INPUT'])
+    it.overrides['cirbo.core.circuit.circuit.Circuit'] = ns
+    it.overrides['cirbo.core.circuit.Circuit'] = ns
+    it._globals_cache.clear()
+    try:
+        for modname, gen, unary in ((MUL, 'generate_mul', False), (SQ, 'generate_square', True)):
+            m = ck.repo.mod(modname)
+            fn = m.func(gen)
+            enums = [v for v in (it.global_value(m, n) for n in list(m.classes)) if isinstance(v, RepoEnum)]
+            params = [a.arg for a in fn.args.kwonlyargs + fn.args.args]
+            ck.need(len(enums) == 1 and 'type' in params, f'{m.rel}: the mode enumeration of {gen} is not identifiable')
+            probs, n_inst = [], 0
+            for mode_name, mode in enums[0].members.items():
+                for width in (1, 3):
+                    for be in (False, True):
+                        n_inst += 1
+                        tag = f'{gen}({width}{"" if unary else ", " + str(width)}, type={enums[0].name}.{mode_name}, big_endian={be})'
+                        it.steps = 0
+                        try:
+                            c = RepoFunc(it, m, fn)(*((width,) if unary else (width, width)), type=mode, big_endian=be)
+                        except InterpRaise as e:
+                            probs.append(f'{tag} raises {e.exc_name}')
+                            continue
+                        ins, outs = list(c._inputs), list(c._outputs)
+                        if len(ins) != (width if unary else 2 * width) or any(o not in c._gates for o in outs):
+                            probs.append(f'{tag}: circuit with {len(ins)} inputs / outputs {outs}')
+                            continue
+                        for A in range(1 << width):
+                            for Bv in ((0,) if unary else range(1 << width)):
+                                vals = bits_of(A, width, be) + ([] if unary else bits_of(Bv, width, be))
+                                v = eval_all(c, dict(zip(ins, vals)))
+                                got = num([v[o] for o in outs], be)
+                                want = A * A if unary else A * Bv
+                                if got != want:
+                                    probs.append(f'{tag}: {A}{"^2" if unary else " * " + str(Bv)} comes out as {got} ({len(outs)} output bits)')
+                                    break
+                            else:
+                                continue
+                            break
+                if len(probs) > 3:
+                    break
+            ck.check(not probs, rule, m, fn, f'{gen}: for every mode of {enums[0].name} ({", ".join(enums[0].members)}), widths 1 and 3, both endiannesses, the generated circuit computes the product on every operand value ({n_inst} circuits)',
+                     '; '.join(probs[:3]), construct=f'{gen} over all modes')
+    finally:
+        it.overrides.pop('cirbo.core.circuit.circuit.Circuit', None)
+        it.overrides.pop('cirbo.core.circuit.Circuit', None)
+        it._globals_cache.clear()
+
+
+def fold_endian_rel(ck: Checker, rule: str, modules, public, exempt=(), bench: NumBench | None = None):
+    """Endianness as a relation, without knowing what a generator computes: for every public function with a `big_endian`
+    parameter, the call with big_endian=True on operand lists given most significant bit first must build the same functions,
+    result numbers reversed, as the call with big_endian=False on the same operands given least significant bit first.  Both
+    calls run on equal host circuits; the returned bits are compared on every value of the host's inputs.  Returns the names
+    of the functions that were compared (for the others the shape rule stays as it is)."""
+    import itertools
+    from .interp import RepoFunc
+    from . import genrules as R
+    bench = bench or NumBench(ck.repo)
+    it = bench.B.interp
+    ns = _CircuitNS(bench.T['INPUT'])
+    it.overrides['cirbo.core.circuit.circuit.Circuit'] = ns
+    it.overrides['cirbo.core.circuit.Circuit'] = ns
+    it._globals_cache.clear()
+    compared = set()
+
+    def numbers(res):
+        """The result as a list of components: ('num', [labels]) or ('bit', label)."""
+        if isinstance(res, (list, tuple)) and res and all(isinstance(x, str) for x in res) and isinstance(res, list):
+            return [('num', list(res))]
+        if isinstance(res, str):
+            return [('bit', res)]
+        if isinstance(res, (list, tuple)):
+            out = []
+            for x in res:
+                if isinstance(x, str):
+                    out.append(('bit', x))
+                elif isinstance(x, (list, tuple)) and all(isinstance(y, str) for y in x):
+                    out.append(('num', list(x)))
+                else:
+                    return None
+            return out
+        return None
+
+    try:
+        for m, q, fn in R.gen_functions(ck.repo, modules):
+            params = [a.arg for a in fn.args.args + fn.args.kwonlyargs]
+            if 'big_endian' not in params or (m.name, q) not in public or q in exempt:
+                continue
+            pos = [a for a in fn.args.args]
+            probs, n_inst, skipped = [], 0, None
+            if pos and pos[0].arg == 'circuit':
+                seqs = [a.arg for a in pos[1:] if a.annotation is not None and 'Label' in ast_norm(a.annotation)]
+                others = [a.arg for a in pos[1:] if a.arg not in seqs]
+                if not seqs or any(o != 'shift' for o in others):
+                    ck.notes.setdefault('structural_rules_not_applicable', []).append(f'endianness relation: {q}({", ".join(params)}) has a parameter list the sweep does not know')
+                    continue
+                widths = [(3,) * len(seqs)] if 'pow2_m1' in q else ([(2,) * len(seqs), (3,) * len(seqs)] + ([(3, 2), (1, 3)] if len(seqs) == 2 else [(1,)]))
+                for ws in widths:
+                    for shift in ((0, 1) if 'shift' in others else (None,)):
+                        runs = []
+                        for be in (False, True):
+                            c, names = bench.host(sum(ws))
+                            ops, k = [], 0
+                            for w in ws:
+                                ops.append(list(names[k:k + w]))
+                                k += w
+                            args = [list(reversed(o)) if be else list(o) for o in ops]
+                            kw = {'big_endian': be}
+                            try:
+                                res = bench.run(m.name, q, c, *(([shift] if shift is not None else []) + args), **kw)
+                            except InterpRaise as e:
+                                runs.append(('raise', e.exc_name, None, None))
+                                continue
+                            runs.append(('ok', numbers(res), c, names))
+                        n_inst += 1
+                        tag = f'{q}(widths {ws}{", shift " + str(shift) if shift is not None else ""})'
+                        (s0, r0, c0, names), (s1, r1, c1, _) = runs
+                        if s0 == 'raise' or s1 == 'raise':
+                            if (s0, r0) != (s1, r1):
+                                probs.append(f'{tag}: little-endian call {"raises " + r0 if s0 == "raise" else "returns"}, big-endian call {"raises " + r1 if s1 == "raise" else "returns"}')
+                            continue
+                        if r0 is None or r1 is None:
+                            skipped = 'the result is not made of labels and label lists'
+                            break
+                        ghost = [l for r_, c_ in ((r0, c0), (r1, c1)) for k_, x in r_ for l in (x if k_ == 'num' else [x]) if l not in c_._gates]
+                        if ghost:
+                            probs.append(f'{tag}: the result names {ghost[0]!r}, which is no gate of the circuit')
+                            continue
+                        if [(k_, len(x) if k_ == 'num' else 1) for k_, x in r0] != [(k_, len(x) if k_ == 'num' else 1) for k_, x in r1]:
+                            probs.append(f'{tag}: result shapes differ between the two endiannesses')
+                            continue
+                        for vals in itertools.product((False, True), repeat=len(names)):
+                            v0 = eval_all(c0, dict(zip(names, vals)))
+                            v1 = eval_all(c1, dict(zip(names, vals)))
+                            bad = False
+                            for (k0, x0), (k1, x1) in zip(r0, r1):
+                                a0 = [v0[l] for l in x0] if k0 == 'num' else [v0[x0]]
+                                a1 = [v1[l] for l in reversed(x1)] if k1 == 'num' else [v1[x1]]
+                                if a0 != a1:
+                                    bad = True
+                            if bad:
+                                probs.append(f'{tag}: with operand bits {[int(b) for b in vals]} (least significant first) the big-endian call on the reversed operands does not return the reversed little-endian result')
+                                break
+                    if skipped or len(probs) > 3:
+                        break
+            else:
+                # generate_*(sizes..., big_endian): inputs are the operands one after another, outputs one or two numbers
+                ints = [a.arg for a in pos if a.annotation is not None and ast_norm(a.annotation) == 'int']
+                if len(ints) != len(pos) or not ints:
+                    continue
+                for size in (2, 3):
+                    runs = []
+                    for be in (False, True):
+                        it.steps = 0
+                        try:
+                            c = RepoFunc(it, m, fn)(*([size] * len(ints)), big_endian=be)
+                            runs.append(('ok', c))
+                        except InterpRaise as e:
+                            runs.append(('raise', e.exc_name))
+                    n_inst += 1
+                    tag = f'{q}({", ".join([str(size)] * len(ints))})'
+                    if runs[0][0] == 'raise' or runs[1][0] == 'raise':
+                        if runs[0] != runs[1] and not (runs[0][0] == runs[1][0] == 'raise'):
+                            probs.append(f'{tag}: one endianness raises, the other does not')
+                        continue
+                    c0, c1 = runs[0][1], runs[1][1]
+                    ins, ins1 = list(c0._inputs), list(c1._inputs)      # (compared by position: the labels may be numbered the other way round)
+                    if len(ins1) != len(ins) or len(c1._outputs) != len(c0._outputs) or not ins or len(ins) > 8:
+                        probs.append(f'{tag}: the two endiannesses give circuits with different interfaces')
+                        continue
+                    n_ops = 2 if len(ins) == 2 * size and len(ints) <= 2 and ('mul' in q or 'sub' in q or 'div' in q) else 1
+                    w_op = len(ins) // n_ops
+                    no = len(c0._outputs)
+                    splits = [[no]] + ([[no // 2, no - no // 2]] if no % 2 == 0 and no >= 2 else []) + ([[no - 1, 1]] if no >= 2 else [])
+                    ok_split = None
+                    for sp in splits:
+                        good = True
+                        for vals in itertools.product((False, True), repeat=len(ins)):
+                            rv = []
+                            for k in range(n_ops):
+                                rv += list(reversed(vals[k * w_op:(k + 1) * w_op]))
+                            v0 = eval_all(c0, dict(zip(ins, vals)))
+                            v1 = eval_all(c1, dict(zip(ins1, rv)))
+                            o0 = [v0[o] for o in c0._outputs]
+                            o1 = [v1[o] for o in c1._outputs]
+                            exp, k = [], 0
+                            for w in sp:
+                                exp += list(reversed(o0[k:k + w]))
+                                k += w
+                            if exp != o1:
+                                good = False
+                                break
+                        if good:
+                            ok_split = sp
+                            break
+                    if ok_split is None:
+                        probs.append(f'{tag}: the big-endian circuit is not the little-endian one with operands and result numbers reversed')
+            if skipped:
+                ck.notes.setdefault('structural_rules_not_applicable', []).append(f'endianness relation: {q}: {skipped}')
+                continue
+            if n_inst:
+                compared.add(q)
+                ck.check(not probs, rule, m, fn, f'{q}: the big-endian call on operands given most significant bit first returns the reversed result of the little-endian call ({n_inst} instances, every value of the operand bits)',
+                         '; '.join(probs[:2]), construct=f'{q} endianness relation')
+    finally:
+        it.overrides.pop('cirbo.core.circuit.circuit.Circuit', None)
+        it.overrides.pop('cirbo.core.circuit.Circuit', None)
+        it._globals_cache.clear()
+    return compared
+
+
+def ast_norm(node):
+    from .core import norm
+    return norm(node)
 
 
 def fold_sub_div_sqrt(ck: Checker, rule: str, bench: NumBench | None = None):
